@@ -55,6 +55,8 @@ HOURLY_PROFILES = {
                                    "elasticnet": {"adaptive_weights": True, "adaptive_weight_max_iter": 3, "adaptive_weight_tol": 1e-2}},
     "hourly_supplemental": {"seed": 5, "supplemental_time_series_columns": ["wind", "humidity", "cloud", "aux_b", "aux_a"]},
     "hourly_supplemental_cat": {"seed": 5, "supplemental_time_series_columns": ["wind", "cloud"], "supplemental_categorical_columns": ["open", "shift"]},
+    # column names as they come out of a utility's export: mixed case, a blank inside
+    "hourly_supplemental_names": {"seed": 5, "supplemental_time_series_columns": ["Wind_Speed", "RH pct"], "supplemental_categorical_columns": ["Open"]},
     "hourly_random_sel": {"seed": 5, "elasticnet": {"selection": "random"}},
     "hourly_min_hours0": {"seed": 5, "min_daily_training_hours": 0},
     "hourly_clusters": {"seed": 5, "temporal_cluster": {"n_cluster_upper": 8, "score_metric": "silhouette"}},
@@ -65,6 +67,8 @@ HOURLY_PROFILES = {
                                                            "edge_bin_rate": None, "edge_bin_percent": None}},
     "hourly_no_bins": {"seed": 5, "temperature_bin": None},
     "hourly_seed0": {"seed": 0},
+    "hourly_seed_alt": {"seed": 1234},
+    "hourly_random_sel_alt": {"seed": 1234, "elasticnet": {"selection": "random"}},
     "hourly_features_reordered": {"seed": 5, "train_features": ["ghi", "temperature"]},
     "hourly_no_edge_bins": {"seed": 5, "temperature_bin": {"include_edge_bins": False, "edge_bin_rate": None, "edge_bin_percent": None}},
 }
@@ -103,7 +107,8 @@ def baseline(draw, family=None, profiles=None, cheap=True, full_year=True, tzs=N
 
 
 SUPPLEMENTAL = {"hourly_supplemental": {"ts": ["wind", "humidity", "cloud", "aux_b", "aux_a"], "cat": []},
-                "hourly_supplemental_cat": {"ts": ["wind", "cloud"], "cat": ["open", "shift"]}}
+                "hourly_supplemental_cat": {"ts": ["wind", "cloud"], "cat": ["open", "shift"]},
+                "hourly_supplemental_names": {"ts": ["Wind_Speed", "RH pct"], "cat": ["Open"]}}
 
 
 def raw_frame(b):
@@ -129,7 +134,7 @@ def raw_frame(b):
             ph = sum(map(ord, name)) % 17
             df[name] = 5.0 + 3.0 * np.sin((k + ph) / (20.0 + ph)) + rng.gamma(2.0, 1.0, len(df))
         for name in SUPPLEMENTAL[b["profile"]]["cat"]:
-            df[name] = ((hod >= 8) & (hod < 18)).astype(int) if name == "open" else (df.index.dayofweek.values % 3)
+            df[name] = ((hod >= 8) & (hod < 18)).astype(int) if name.lower() == "open" else (df.index.dayofweek.values % 3)
         obs = df["observed"].values
         df["observed"] = obs * (1 + 0.02 * df[SUPPLEMENTAL[b["profile"]]["ts"][0]].values / 8.0)
     return df
